@@ -33,6 +33,7 @@ import (
 	"os/exec"
 	"path/filepath"
 	"sort"
+	"strconv"
 	"strings"
 	"sync"
 	"time"
@@ -250,6 +251,7 @@ type H struct {
 	known       map[string]int
 	maxAlloc    map[string]uint64
 	skipped     int
+	seconds     map[string]float64
 }
 
 func hexTrunc(b []byte) interface{} {
@@ -284,6 +286,45 @@ func hexLit(b []byte) string {
 	return sb.String()
 }
 
+// sumLit re-encodes a summary `[v0; v1; (-1); ...]` (values below 2^64 in
+// magnitude) as `(unz (pk n [...]))`: per value one tag byte (number of
+// magnitude bytes, +128 when negative) and the magnitude little endian
+// (Model.DecodersCases.unz); a long list of Z numerals is what made the
+// shards slow to type-check.
+func sumLit(summary string) string {
+	inner := strings.TrimSuffix(strings.TrimPrefix(summary, "["), "]")
+	if strings.TrimSpace(inner) == "" {
+		return "[]"
+	}
+	parts := strings.Split(inner, "; ")
+	if len(parts) < 16 {
+		return summary
+	}
+	enc := make([]byte, 0, 2*len(parts))
+	for _, p := range parts {
+		neg := false
+		if strings.HasPrefix(p, "(-") {
+			neg = true
+			p = strings.TrimSuffix(strings.TrimPrefix(p, "(-"), ")")
+		}
+		v, err := strconv.ParseUint(p, 10, 64)
+		if err != nil {
+			panic("summary value: " + p)
+		}
+		var mag []byte
+		for ; v > 0; v >>= 8 {
+			mag = append(mag, byte(v))
+		}
+		tag := byte(len(mag))
+		if neg {
+			tag |= 128
+		}
+		enc = append(enc, tag)
+		enc = append(enc, mag...)
+	}
+	return "(unz " + hexLit(enc) + ")"
+}
+
 // one runs one decoder call end to end: child, oracle, case.
 func (h *H) one(kind string, req request, recipe string) {
 	c := h.c
@@ -298,7 +339,9 @@ func (h *H) one(kind string, req request, recipe string) {
 		}
 		pre1, pre2 = sp.Extra1, sp.Extra2
 	}
+	t0 := time.Now()
 	rep, status, detail := h.sup.do(req)
+	h.seconds[decoderNames[req.Dec]] += time.Since(t0).Seconds()
 	if status == stReply && rep.Class == clsSkip {
 		h.skipped++
 		return
@@ -378,7 +421,7 @@ func (h *H) one(kind string, req request, recipe string) {
 		case rep.Class == clsPanic:
 			obs = "DPanic"
 		case rep.Class == clsOk:
-			obs = "(DOk " + rep.Summary + ")"
+			obs = "(DOk " + sumLit(rep.Summary) + ")"
 		default:
 			obs = "DErr"
 		}
@@ -430,6 +473,16 @@ func (h *H) probe(id string, req request, wantClass string, what string) {
 // ---------------------------------------------------------------- mutation helpers
 
 func clone(b []byte) []byte { return append([]byte{}, b...) }
+
+// map iteration order must not influence the PRNG stream (replays identify a case by its index)
+func sortedKeys(m map[string][]byte) []string {
+	ks := make([]string, 0, len(m))
+	for k := range m {
+		ks = append(ks, k)
+	}
+	sort.Strings(ks)
+	return ks
+}
 
 func (h *H) rbytes(n int) []byte {
 	b := make([]byte, n)
@@ -738,13 +791,13 @@ func main() {
 		workerMain()
 		return
 	}
-	c := gal.New("C15", header, 120)
+	c := gal.New("C15", header, 300)
 	wd, err := os.MkdirTemp("", "c15")
 	if err != nil {
 		panic(err)
 	}
 	defer os.RemoveAll(wd)
-	h := &H{c: c, sup: &supervisor{workdir: wd}, classes: map[string]int{}, known: map[string]int{}, maxAlloc: map[string]uint64{}}
+	h := &H{c: c, sup: &supervisor{workdir: wd}, classes: map[string]int{}, known: map[string]int{}, maxAlloc: map[string]uint64{}, seconds: map[string]float64{}}
 	defer h.sup.stop()
 	h.maxModelLen = c.Scale(6000, 70000)
 	q := func(a, b int) int { return c.Scale(a, b) }
@@ -793,10 +846,14 @@ func main() {
 		b := repoFile("pkg/tools/tests/" + f)
 		h.mutate("ParsePolicyData", dPolicyData, nil, b, nil, f, q(220, 700), q(120, 1500), q(200, 3000), 0, 36, 44)
 	}
-	for name, b := range synthPolData() {
+	synth := synthPolData()
+	for _, name := range sortedKeys(synth) {
+		b := synth[name]
 		h.mutate("ParsePolicyData", dPolicyData, nil, b, nil, name, q(60, 400), q(25, 300), q(50, 600), 0, 36, 44)
 	}
-	for name, b := range hostilePolData() {
+	hostile := hostilePolData()
+	for _, name := range sortedKeys(hostile) {
+		b := hostile[name]
 		h.run("ParsePolicyData/hostile", dPolicyData, nil, b, nil, name)
 	}
 	for i := 0; i < q(120, 1500); i++ {
@@ -824,7 +881,8 @@ func main() {
 		"pkg/tools/tests/bios_acm2.bin":           repoFile("pkg/tools/tests/bios_acm2.bin"),
 		"testdata/fake_acm/biosacm_cbnt_fake.bin": repoFile("testdata/fake_acm/biosacm_cbnt_fake.bin"),
 	}
-	for name, full := range acmFiles {
+	for _, name := range sortedKeys(acmFiles) {
+		full := acmFiles[name]
 		// LookupACMSize
 		h.run("LookupACMSize/valid", dLookupACMSize, nil, full[:4096], nil, name+"[:4096]")
 		for n := 0; n <= 40; n++ {
@@ -905,7 +963,8 @@ func main() {
 		dBootStsRaw:  {0xa0, 0xa8},
 		dReadTXTRegs: regBoundaries,
 	}
-	for name, sp := range spaces {
+	for _, name := range sortedKeys(spaces) {
+		sp := spaces[name]
 		rich := name == "random" || strings.HasPrefix(name, "synthetic")
 		for _, d := range []int{dTXTRegs, dACMStatus, dACMPolRaw, dBootStsRaw, dReadTXTRegs} {
 			kind := decoderNames[d]
@@ -1109,7 +1168,8 @@ func main() {
 		"PCR-0x:AA", "PCR-1_:AA", "PCR--1:AA", "PCR-99:AA", "PCR-24:AA", "PCR-23:AA", "PCR-:AA", "pcr-00:AA", "PCR-00;AA", "PCR-00:ZZ", "PCR-00:\t\tAA", " PCR-00:AA", "PCR -00:AA", "\xffPCR-00:AA", "PCR-\xc2\xa000:AA", "PCR-\r00:AA", "PCR-0\r0:AA"} {
 		crafted[fmt.Sprintf("%q", s)] = []byte(s)
 	}
-	for name, b := range crafted {
+	for _, name := range sortedKeys(crafted) {
+		b := crafted[name]
 		h.run("parseSysfsPCRs/crafted", dSysfsPCRs, nil, b, nil, name)
 	}
 	alphabet := []byte("PCR-0123456789:ABCDEFabcdefXZ \t\r\n\n\n+-\xc2\xa0\xe2\x80\x83")
@@ -1233,6 +1293,7 @@ func main() {
 	c.Rep.Extra["max_alloc_per_decoder"] = h.maxAlloc
 	c.Rep.Extra["child_restarts"] = h.sup.starts - 1
 	c.Rep.Extra["not_reached"] = h.skipped
+	c.Rep.Extra["seconds_per_decoder"] = h.seconds
 	c.Rep.Notes = append(c.Rep.Notes,
 		"decoders 1..19 are modelled (Coq case per call up to "+fmt.Sprint(h.maxModelLen)+" input bytes); tools.ParseACM, UnmarshalYAML, registers.New, CalcImageOffset/GetRegion, tpmeventlog.Parse and the third-party parsers behind them (fiano, go-attestation, yaml, json, pem/x509, aes-gcm) are fuzzed with the oracle only",
 		"each call runs in a child process with RLIMIT_AS = 4 GiB and a 2 s deadline; allocation = runtime.MemStats.TotalAlloc delta around the call")
